@@ -61,6 +61,19 @@ LEVEL_TEXT = (
     "builder's urlencode writes a key with an empty value as 'k='), strict_parsing false, separator '&', no field "
     "limit, UTF-8 - whether the options are written as keywords, positionally, through a spread dict, a helper or "
     "functools.partial - and gives the list parse_qsl returns, every pair in order, to the multi-dict class. "
+    "(R15.9) the function of urls.py that uri_to_iri applies to parts.hostname (found by its role on the route to the "
+    "netloc slot), evaluated the same way on 84 host names, undoes iri_to_uri's host step "
+    "(encode('idna').decode('ascii'), R15.2) label by label wherever in the name the encoded labels stand: for names "
+    "of 1 to 4 labels with every assignment of ASCII / non-ASCII labels to the positions the decoder gives back the "
+    "name that was encoded (a whole-name shortcut that looks only at the start or the end of the name, a walk that "
+    "stops early, a name without a dot left alone are violations), an ASCII label that starts with the ACE prefix "
+    "but is not punycode stays as it is next to decoded labels, plain ASCII names / IPv4 / IPv6 literal text and "
+    "already decoded names come back unchanged; python's own idna / ascii codecs are the meaning of the codec "
+    "calls (bytes.decode, str(b, codec), codecs.decode, encodings.idna.ToUnicode), a step whose value the name "
+    "does not determine is an analysis error, and so is a decoder that fails a clause on its own while its caller "
+    "tests the name first or catches what the call raises (work shared between caller and decoder is not followed). "
+    "The evaluator also follows generator functions (the yielded values as a list), `with contextlib.suppress(...)` "
+    "and except clauses naming a module-level tuple of builtin exception classes. "
     "Helper functions the judged functions call are looked into (one level of extraction, arguments bound); a callable "
     "that is functools.partial(F, <constants / module-level names>) - bound at module level, to a local, or handed to a "
     "helper as its converter - is F called with those arguments. The R15.7 / R15.8 evaluator also follows match "
@@ -79,7 +92,7 @@ LEVEL_TEXT = (
     "unquoter may also go by index (range(len(pieces)), stride-2 in-place rewrite). A value whose origin is a call that "
     "is not looked into, a component handed to something that is not followed to urlunsplit, or an emission that "
     "cannot be classified is an analysis error, not a violation. It decides these necessary clauses, not the fixpoint law "
-    "over all URLs, not IDNA, and not the dispatcher's longest-mount choice / concatenation invariant. Not decided "
+    "over all URLs, of IDNA only the label-position clauses of R15.9 on its representative names (not: nameprep / case mapping, label length limits, trailing dots, the IDNA 2008 / UTS 46 differences, names of more than 4 labels), and not the dispatcher's longest-mount choice / concatenation invariant. Not decided "
     "about the host: that a default port IS removed (a host that keeps ':80' names the same authority), the "
     "bracketing of an IPv6 SERVER_NAME, the trusted-hosts test. Not decided about the query mapping: the writer side "
     "(_urlencode drops only None values, iter_multi_items yields every pair) and the form-body reader's parse_qsl call "
@@ -92,6 +105,7 @@ TRUSTED = [
     "python codec alias table rows for utf-8, latin-1, ascii; latin-1 is total and maps byte b to U+00b",
     "python's str / bytes / dict / tuple methods, slicing and `re` as the meaning of the same operations in the analysed source (R15.7 / R15.8 apply them to constants of the source and to the representative inputs; no werkzeug code is imported or run)",
     "urllib.parse.parse_qsl(qs, keep_blank_values, strict_parsing, encoding, errors, max_num_fields, separator): parameter order and defaults; with keep_blank_values false a pair with an empty value is dropped",
+    "python's idna and ascii codecs (encodings.idna: ToASCII / ToUnicode per dot-separated label, ACE prefix 'xn--') as the meaning of encode('idna') / decode('idna') in the analysed source; R15.9 applies them to its representative host names only",
     "default ports: http / ws 80, https / wss 443 (RFC 9110 4.2, RFC 6455 3)",
 ]
 ASSUMPTIONS = [
@@ -255,6 +269,7 @@ def run(ctx: Ctx) -> None:
     ctx.rule("R15.5", "every value stored under PATH_INFO / SCRIPT_NAME / QUERY_STRING by EnvironBuilder.get_environ and the dev server is latin-1 tunnelled (encoding dance) or an ASCII constant; in Request.__init__, Map.bind_to_environ and get_path_info no read of these keys escapes other than decoded (decoding dance) or as raw bytes (.encode(latin-1))")
     ctx.rule("R15.6", "DispatcherMiddleware stores only untouched pieces (slices, concatenations, ASCII constants) of the tunnelled environ values, the new SCRIPT_NAME starts with the old one followed by PATH_INFO pieces, pieces peeled from the right are prepended to the remainder, and both keys are stored on every path to the mounted app")
     ctx.rule("R15.7", "get_host returns the Host value with nothing removed but the default port of the scheme (':80' for http / ws, ':443' for https / wss) as an exact suffix: evaluated by constant propagation through the function on representative (scheme, host) pairs, among them hosts whose own last characters are characters of the port text")
+    ctx.rule("R15.9", "the host decoder uri_to_iri applies to parts.hostname undoes iri_to_uri's host step label by label, wherever in the name the encoded labels stand: evaluated by constant propagation through the function, decoder(h.encode('idna').decode('ascii')) == h for names h of 1 to 4 labels with every assignment of ASCII / non-ASCII labels to the positions, a label that is not valid punycode stays as it is next to decoded ones, and plain ASCII names, IPv4 / IPv6 literals and already decoded names come back unchanged")
     ctx.rule("R15.8", "Request.args hands the whole query string to parse_qsl with blank values kept (the builder's urlencode writes a key with an empty value as 'k='), non-strict, separator '&', no field limit, UTF-8, and gives the list it returns to the multi-dict class as it is")
 
     urls = repo.module("urls")
@@ -273,6 +288,7 @@ def run(ctx: Ctx) -> None:
     _r15_6(ctx)
     _r15_7(ctx)
     _r15_8(ctx)
+    _r15_9(ctx, u2i)
 
 
 # ---------------------------------------------------------------------
@@ -638,6 +654,9 @@ def _route(ctx: Ctx, rule: str, fi: FuncInfo, flow: Flow, elts: list[ast.AST], a
 # R15.3  uri_to_iri
 
 
+_HOST_DECODERS: list[str] = []  # functions of urls.py that uri_to_iri applies to parts.hostname (found by R15.3, judged by R15.9)
+
+
 def _r15_3(ctx: Ctx, folder: Folder, mk: FuncInfo, u2i: FuncInfo, unq: dict[str, _Unquoter]) -> dict[str, str]:
     flow = Flow(ctx.repo, u2i)
     sink, elts = _unsplit_slots(flow, u2i)
@@ -668,12 +687,10 @@ def _r15_3(ctx: Ctx, folder: Folder, mk: FuncInfo, u2i: FuncInfo, unq: dict[str,
     seen = _route(ctx, "R15.3", u2i, flow, elts, accept, keep=lambda attr, fq: attr == "hostname", sink=sink)
     ctx.floor("R15.3", "uri_to_iri component routes", sum(len(v) for v in seen.values()), 7)
 
-    # the IDNA decoder decodes IDNA
+    # that the IDNA decoder decodes IDNA is judged on what it computes (R15.9), not on how the codec call is spelled
+    _HOST_DECODERS[:] = sorted(set(idna_fq))
     for nm in sorted(set(idna_fq)):
-        fi = m.functions[nm]
-        ctx.saw(fi)
-        decs = [c for c in astq.method_calls(fi.node, "decode") if c.args and astq.const_str(c.args[0]) == "idna"]
-        ctx.ob("R15.3", f"{nm} decodes the idna codec", bool(decs), f"{len(decs)} `.decode('idna')` call(s)", fi, fi.node, f"{nm} idna")
+        ctx.saw(m.functions[nm])
 
     # the closure returned by _make_unquote_part
     inner = _partial_fn(mk)
@@ -2051,3 +2068,161 @@ def _r15_8(ctx: Ctx) -> None:
     if handed is None:
         raise AnalysisError(f"R15.8: what Request.args returns (`{str(got)[:80]}`) is not a multi-dict class applied to the parsed pairs (shape not understood)")
     ctx.ob("R15.8", "Request.args: every parsed pair reaches the multi-dict, in order", handed == pairs, f"parse_qsl returned {pairs}, {got.label.rsplit('.', 1)[-1]} receives {handed}", fa, fa.node, "Request.args pairs handed over")
+
+
+# ---------------------------------------------------------------------
+# R15.9  the host decoder undoes the IDNA step label by label, wherever the encoded labels stand
+
+
+_ASCII_LABELS = ["www", "example", "net", "a1"]
+_IDN_LABELS = ["☃", "bücher", "例え", "ñandú"]
+_BAD_ACE_LABEL = "xn--zz"  # starts with the ACE prefix, is not punycode: iri_to_uri passes it through, no decoder can decode it
+_PLAIN_HOSTS = ["example.com", "localhost", "www.example.co.uk", "a", "x.org", "xn.example", "ex-ample.com", "node08", "127.0.0.1", "10.0.0.80", "::1", "2001:db8::1"]
+
+
+def _host_families() -> tuple[list[str], list[str]]:
+    """(names with at least one non-ASCII label - every assignment of ASCII / non-ASCII to 1..4 positions -,
+    names that additionally hold a label that only looks encoded)."""
+    idn: list[str] = []
+    for n in range(1, 5):
+        for mask in itertools.product((0, 1), repeat=n):
+            if any(mask):
+                idn.append(".".join((_IDN_LABELS if bit else _ASCII_LABELS)[i % 4] for i, bit in enumerate(mask)))
+    idn += ["x.☃", "xn.☃.net", "xn-a.bücher.org"]  # ASCII first labels that share leading characters with the ACE prefix
+    bad: list[str] = []
+    for n in (2, 3):
+        for mask in itertools.product((0, 1, 2), repeat=n):
+            if 1 in mask and 2 in mask:
+                bad.append(".".join((_ASCII_LABELS[i % 4], _IDN_LABELS[i % 4], _BAD_ACE_LABEL)[k] for i, k in enumerate(mask)))
+    return idn, bad
+
+
+def _codec_fn(kind: str):
+    """codecs.encode / codecs.decode / encodings.idna.ToUnicode / ToASCII on determined str / bytes values: the
+    python codec itself is the trusted meaning of the call, as for the str / bytes methods."""
+
+    def run(args: list, kw: dict):
+        import codecs
+        import encodings.idna
+
+        vals = list(args) + list(kw.values())
+        if not vals or any(not isinstance(v, (str, bytes)) for v in vals):
+            raise NotConcrete(f"`{kind}` on a value the inputs do not determine")
+        f = getattr(codecs, kind, None) or getattr(encodings.idna, kind)
+        try:
+            return f(*args, **kw)
+        except UnicodeError as x:
+            raise ConcreteRaise(type(x).__name__)
+        except (LookupError, TypeError) as x:
+            raise ConcreteRaise("LookupError" if isinstance(x, LookupError) else "TypeError")
+
+    return run
+
+
+_CODEC_WATCH = {"codecs.decode": "decode", "codecs.encode": "encode", "encodings.idna.ToUnicode": "ToUnicode", "encodings.idna.ToASCII": "ToASCII", "encodings.idna.nameprep": "nameprep"}
+
+
+def _caller_side(m, nm: str, decoder: ast.AST) -> str | None:
+    """R15.9 judges the decoder on its own.  That is the whole story only when its callers hand it the host name
+    without looking at it first: a caller that tests the name (`host.isascii()`, a regex, a comparison of a computed
+    value) before the call, or catches what the call raises, shares the work with the decoder.  Returns a text saying
+    what the caller does, or None when every call is a plain one (guarded by nothing but truth / None tests)."""
+    sites = [c for c in ast.walk(m.tree) if isinstance(c, ast.Call) and isinstance(c.func, ast.Name) and c.func.id == nm]
+    sites = [c for c in sites if not _inside(c, decoder)]
+    if not sites:
+        return f"no direct call of {nm} found in {m.name} (handed on as a value?)"
+    for c in sites:
+        names = {n.id for a in list(c.args) + [k.value for k in c.keywords] for n in ast.walk(a) if isinstance(n, ast.Name)}
+        attrs = {n.attr for a in list(c.args) + [k.value for k in c.keywords] for n in ast.walk(a) if isinstance(n, ast.Attribute)}
+        fn: ast.AST | None = c
+        while fn is not None and not isinstance(fn, (ast.FunctionDef, ast.AsyncFunctionDef, ast.Lambda)):
+            par = getattr(fn, "_parent", None)
+            if isinstance(par, ast.Try) and fn in par.body and par.handlers:
+                return f"the call `{norm(c)[:50]}` stands in a try block of its caller"
+            fn = par
+        if fn is None:
+            return f"the call `{norm(c)[:50]}` is not inside a function"
+        tests: list[ast.AST] = []
+        for n in ast.walk(fn):
+            if isinstance(n, (ast.If, ast.IfExp, ast.While, ast.Assert)):
+                tests.append(n.test)
+            elif isinstance(n, ast.BoolOp):
+                tests += n.values
+            elif isinstance(n, ast.comprehension):
+                tests += n.ifs
+            elif isinstance(n, ast.match_case) and n.guard is not None:
+                tests.append(n.guard)
+        for tst in tests:
+            for k in ast.walk(tst):
+                if not isinstance(k, ast.Call) or k is c or _inside(c, k):
+                    continue
+                touched = any((isinstance(x, ast.Name) and x.id in names) or (isinstance(x, ast.Attribute) and x.attr in attrs) for x in ast.walk(k))
+                if touched:
+                    return f"the caller tests the name with `{norm(k)[:50]}` before / around `{norm(c)[:40]}`"
+    return None
+
+
+def _r15_9(ctx: Ctx, u2i: FuncInfo) -> None:
+    repo = ctx.repo
+    m = u2i.module
+    if not _HOST_DECODERS:
+        ctx.error("R15.9: no host decoder of urls.py found on uri_to_iri's hostname route (see R15.3): nothing to evaluate")
+        return
+    idn, bad_names = _host_families()
+    # what iri_to_uri's host step (R15.2: encode('idna').decode('ascii')) makes of the names: python's own codec
+    try:
+        enc = {h: h.encode("idna").decode("ascii") for h in idn + bad_names}
+    except UnicodeError as x:
+        raise AnalysisError(f"R15.9: this python's idna codec does not encode a representative name: {x}")
+    if any("xn--" not in enc[h] or not enc[h].isascii() for h in idn) or any(_BAD_ACE_LABEL not in enc[h].split(".") for h in bad_names):
+        raise AnalysisError("R15.9: this python's idna codec does not behave as the representative names assume")
+    total = 0
+    for nm in list(_HOST_DECODERS):
+        fi = m.functions[nm]
+        fn = CFn(fi.node, fi.module)
+
+        def through(arg: str) -> tuple[bool, t.Any]:
+            ip = Concrete(repo)
+            for fq, kind in _CODEC_WATCH.items():
+                ip.watch[fq] = _codec_fn(kind)
+            try:
+                return True, ip.call(fn, [arg], {})
+            except ConcreteRaise as x:
+                return False, x.what
+
+        def judge(cases: list[tuple[str, str]]) -> list[str]:
+            """cases: (argument, expected result) -> the ones that come back different, as text."""
+            nonlocal total
+            out = []
+            for arg, want in cases:
+                total += 1
+                ok, got = through(arg)
+                if not ok:
+                    out.append(f"{nm}({arg!r}) raises {got}")
+                elif got != want:
+                    out.append(f"{nm}({arg!r}) -> {got!r}, not {want!r}")
+            return out
+
+        try:
+            inv = judge([(enc[h], h) for h in idn])
+            kept = judge([(enc[h], h) for h in bad_names])
+            plain = judge([(h, h) for h in _PLAIN_HOSTS])
+            done = judge([(h, h) for h in idn])
+        except NotConcrete as x:
+            ctx.error(f"R15.9: {nm} cannot be evaluated from the source: {x.why}" + (f" (line {getattr(x.node, 'lineno', '?')})" if x.node is not None else ""))
+            return
+
+        if inv or kept or plain or done:
+            shared = _caller_side(m, nm, fi.node)
+            if shared is not None:
+                ctx.error(f"R15.9: {nm} alone does not satisfy the clause ({(inv or kept or plain or done)[0]}), but {shared}: the work is shared between caller and decoder, which is not followed")
+                return
+
+        def fact(badl: list[str], n: int, good: str) -> str:
+            return f"{n} names evaluated: {good}" if not badl else f"{len(badl)} of {n} names: " + "; ".join(badl[:3])
+
+        ctx.ob("R15.9", f"{nm} undoes the IDNA host step at every label position", not inv, fact(inv, len(idn), "every encoded label is decoded, in 1 to 4 label names with the encoded labels at every combination of positions"), fi, fi.node, f"{nm} inverts idna per label")
+        ctx.ob("R15.9", f"{nm} leaves a label that is not valid punycode as it is and decodes the others", not kept, fact(kept, len(bad_names), f"`{_BAD_ACE_LABEL}` stays next to decoded labels at every position"), fi, fi.node, f"{nm} keeps invalid label")
+        ctx.ob("R15.9", f"{nm} returns plain ASCII names and IP literals unchanged", not plain, fact(plain, len(_PLAIN_HOSTS), "unchanged"), fi, fi.node, f"{nm} ascii unchanged")
+        ctx.ob("R15.9", f"{nm} returns an already decoded name unchanged (uri_to_iri is a fixpoint on IRIs)", not done, fact(done, len(idn), "unchanged"), fi, fi.node, f"{nm} decoded unchanged")
+    ctx.floor("R15.9", "host names evaluated through the host decoder", total, 80)
